@@ -260,7 +260,8 @@ PROPS['C15'] = dict(
     theorems=['C15_destroy_needs_unprotected', 'C15_delete_complete', 'C15_commit_keeps_protected', 'C15_no_silent_delete',
               'C15_locked_never_spent', 'C15_subBalance_respects_lock', 'destroyAccount_ok', 'burnAll_keeps', 'destroyAccount_others',
               'protected_not_destroyable', 'fact_destroy_guard_block_time', 'fact_destroy_removes_everything', 'fact_commit_sorted'],
-    engines=[dict(name='statedb', test='TestEngineStatedb', quick=6000, thorough=120000, thorough_seeds=3)],
+    engines=[dict(name='statedb', test='TestEngineStatedb', quick=6000, thorough=120000, thorough_seeds=3),
+             dict(name='block', test='TestEngineBlock', quick=250, thorough=3000, thorough_seeds=2, no_model=True)],   # oracle C15-sender-retyped only: a vesting account among the senders of real blocks
     rule='random cStateDb API sequences on a context whose block time lies in the past (so that a wall-clock guard would disagree with the model), over fixtures: fee-collector and EVM module accounts, delayed vesting accounts (unexpired funded, expired funded, end time between block time and wall clock), base / contract / storage-only / balance-only / empty accounts with two denominations; ops include touch (zero-value AddBalance), pay, CreateAccount collision, Suicide, Selfdestruct6780, commit with and without deleteEmpty; full dump of accounts, balances, code hashes, storage after every op; non-trivial = a real op line; distinct by op-line hash',
     assumptions=['x/bank enforces vesting locks in SendCoins (trusted SDK code; exercised: a SubBalance beyond the spendable amount panics)',
                  'the interpreter reaches accounts only through the StateDB API the engine drives (touch, Transfer, CreateAccount, Suicide)',
